@@ -549,7 +549,8 @@ def main(check, argv):
 			"violation": vs[0].to_json(), "digest": out.digest,
 			"n_occurrences_in_run": len(occ),
 			"replay_cmd": "./check %s --replay %s" % (check.prop_id, path)}, path)
-		ok, why = _confirm(check, path, v["class"], out.digest)
+		ok, why = _confirm(check, path, v["class"], out.digest if
+			check.confirm_digest(rec["leg"]) else None)
 		if ok:
 			reported.append((path, vs[0], len(occ)))
 		else:
@@ -700,6 +701,12 @@ class Check(object):
 			if v.klass == klass and (key is None or v.signature.get("key") == key):
 				return True
 		return False
+
+	def confirm_digest(self, leg):
+		"""Must a fresh-process replay reproduce the digest (not just the violation
+		class)?  True for simulated legs; legs that run the shipped binary under a
+		schedule the simulator does not own answer False."""
+		return self.leg_mode(leg) == "fork"
 
 	def matches_known(self, violation, case, entry):
 		sig = entry.get("signature", {})
